@@ -68,7 +68,11 @@ class C17(L1Prop):
                 ops += [f"{at()} POST av hyph={'latest:%d' % c if keep else 'nil'} hyph={c} history b:1,{c}",
                         f"{at()} POST av hyph=latest:{c} hyph={c} history chunks:2,3",
                         f"{at()} POST as hyph=latest:{c} hyph={c} snapshot b:9,{c}"]
+                mid = r.randrange(1, 8)
                 for i in range(8):
+                    if i == mid and k % 2 == 0:
+                        # the snapshot ages while the count of versions since it is still small (both measures count)
+                        ops += [f"backdate {c} {r.choice([2, 3, 5, 21, 22]) * 86400 + 3600}"]
                     ops += [f"dump {c}", f"{at()} POST av hyph=latest:{c} hyph={c} history b:3,{i}"]
                 ops += [f"backdate {c} {r.choice([1, 2, 3, 5, 14, 21]) * 86400 + 3600}", f"dump {c}",
                         f"{at()} POST av hyph=latest:{c} hyph={c} history b:4", f"{at()} GET gcv hyph=nil hyph={c} absent e",
